@@ -62,7 +62,7 @@ RULE = ("batch: calls without key material (Delete(\"\"), Put(\"\", nil), Delete
         "child process; an unforced stress of 8 and of 32 Adds racing Close (12000 + 2000 iterations per quick run; a call without completion after every Add has returned and Run's goroutine is gone, or completed twice, is a verdict; the window between Add's check and its send cannot be forced from outside); "
         "list / scan (through clientImpl.List / RangeScan): 1..5 shards whose streams end with EOF, an opaque error or any "
         "gRPC status (Canceled, Unknown, DeadlineExceeded, Internal, Unavailable, oxia codes 100..108) after 0..k items, keys from "
-        "the comparer-stressing alphabet; wsend: write batch retry loop over the real stream wrapper, attempts = connection "
+        "the comparer-stressing alphabet; wsend: write batch retry loop over the real executor (ExecuteWrite / writeStream, verif hook) over the real stream wrapper over streams from a fake connection pool, a real kv.DB applying what reaches it; attempts = connection "
         "failure / send failure / answered / stream broken in flight with every status code; listc (child process each): 1..4 gated shard streams, forwards, cancellation, "
         "give-ups; e2e: 30-120 operations per scenario over 1..4 shards, 3 lingers, 4 count limits, "
         "3 byte limits, injected request failures, close under load")
